@@ -159,7 +159,9 @@ func emitTyped(cw *caseWriter, f, ty string, v interface{}) {
 // freshly created row; after a successful import the raw value is nil or of exactly the declared raw type.
 //
 //	imp \t C10 \t <format> \t <ty> \t <Dyn v> \t <ext> \t <ok <Dyn raw> | err <class> | panic …>
-func emitImp(cw *caseWriter, f, ty string, v interface{}) {
+func emitImp(cw *caseWriter, f, ty string, v interface{}) { emitImpFor(cw, "C10", f, ty, v) }
+
+func emitImpFor(cw *caseWriter, prop, f, ty string, v interface{}) {
 	t := jsonline.NewTemplate().With("c", formatByName[f], tySample[ty])
 	ext := map[string]string{}
 	extForValue(v, ext)
@@ -179,13 +181,22 @@ func emitImp(cw *caseWriter, f, ty string, v interface{}) {
 		got, _ := row.Get("c")
 		extForValue(got, ext)
 		impl = "ok " + dynStr(got)
+		if prop == "C11" {
+			// what the column re-emits
+			cv, _ := row.GetValue("c")
+			if ex, eerr := cv.Export(); eerr == nil {
+				impl += " => " + dynStr(ex)
+			} else {
+				impl += " => ERR"
+			}
+		}
 	})
 	if pan != "" {
 		impl = "panic " + strings.ReplaceAll(strings.ReplaceAll(pan, "\t", " "), "\n", " ")
 	}
 	cw.count("imp:" + f + ":" + strings.SplitN(impl, " ", 2)[0])
 	s := dynStr(v)
-	cw.emit("imp "+f+" "+ty+" "+s, true, "imp", "C10", f, ty, s, extStr(ext), impl)
+	cw.emit("imp "+prop+" "+f+" "+ty+" "+s, true, "imp", prop, f, ty, s, extStr(ext), impl)
 }
 
 // impValues: what a column may be asked to import — every JSON scalar as the reader delivers it, arrays,
